@@ -4,49 +4,11 @@ From Coq Require Import Permutation.
 
 (* ================================================================================================
    (1) keys *)
-Lemma retype_key_stable : forall k, key_stable k = true -> retype_key k = k.
-Proof. intros [s|n] H; simpl in *; [|reflexivity]. apply negb_true_iff in H. rewrite H. reflexivity. Qed.
-
-Lemma retype_keys_guard : forall d, guard_F07b d = true -> retype_keys d = d.
+Lemma key_str_retype : forall k, key_str (retype_key k) = key_str k.
 Proof.
-  intros d G. unfold retype_keys, guard_F07b in *. rewrite forallb_forall in G.
-  rewrite <- (map_id d) at 2. apply map_ext_in. intros [p it] Hin. simpl. f_equal.
-  specialize (G _ Hin). simpl in G. rewrite forallb_forall in G.
-  rewrite <- (map_id it) at 2. apply map_ext_in. intros [m o] Hm. simpl. f_equal.
-  specialize (G _ Hm). simpl in G. rewrite forallb_forall in G.
-  destruct o as [i t s rs]. unfold retype_op. simpl in *. f_equal.
-  rewrite <- (map_id rs) at 2. apply map_ext_in. intros k Hk. apply retype_key_stable. apply G. exact Hk.
-Qed.
-
-Theorem keys_partial : forall d, guard_F07b d = true -> parse_doc (retype_keys d) = parse_doc d.
-Proof. intros d G. rewrite (retype_keys_guard d G). reflexivity. Qed.
-
-(* exact characterisation for a document whose keys are all strings (what JSON delivers): writing the
-   numeric keys without quotes loses exactly the operations that declare a numeric response code, and
-   leaves every other operation as it was *)
-Lemma codes_of_str : forall ks, forallb key_is_str ks = true ->
-  exists ss, codes_of ks = Some ss /\
-             codes_of (map retype_key ks) = if forallb (fun c => negb (is_canonical_dec c)) ss then Some ss else None.
-Proof.
-  induction ks as [|[s|n] r IH]; simpl; intro H; try discriminate.
-  - exists []. split; reflexivity.
-  - destruct (IH H) as [ss [E1 E2]]. exists (s :: ss). rewrite E1. split; [reflexivity|].
-    simpl. destruct (is_canonical_dec s) eqn:Es; simpl; [reflexivity|].
-    rewrite E2. destruct (forallb (fun c => negb (is_canonical_dec c)) ss); reflexivity.
-Qed.
-
-Lemma parse_op_retype : forall path m o, all_str_op o = true ->
-  parse_op path (m, retype_op o) = filter survives (parse_op path (m, o)).
-Proof.
-  intros path m o H. unfold parse_op. simpl. destruct (is_method m); [|reflexivity].
-  destruct (codes_of_str _ H) as [ss [E1 E2]]. rewrite E1, E2. simpl. unfold survives at 1. simpl.
-  destruct (forallb (fun c => negb (is_canonical_dec c)) ss); reflexivity.
-Qed.
-
-Lemma filter_flat_map : forall {A B} (f : B -> bool) (g : A -> list B) l,
-  filter f (flat_map g l) = flat_map (fun x => filter f (g x)) l.
-Proof.
-  induction l as [|x l IH]; simpl; [reflexivity|]. rewrite filter_app, IH. reflexivity.
+  intros [s|n]; simpl; [|reflexivity].
+  destruct (is_canonical_dec s && str_eqb (dec (dec_value s 0)) s) eqn:E; [|reflexivity].
+  apply andb_true_iff in E. destruct E as [_ E]. apply str_eqb_eq in E. exact E.
 Qed.
 
 Lemma flat_map_ext_in' : forall {A B} (f g : A -> list B) l,
@@ -56,16 +18,22 @@ Proof.
   rewrite (H x (or_introl eq_refl)), IH; [reflexivity|]. intros y Hy. apply H. right. exact Hy.
 Qed.
 
-Theorem keys_loss : forall d, all_str d = true ->
-  parse_doc (retype_keys d) = filter survives (parse_doc d).
+(* FULL since the fix of F07b: writing numeric response codes without quotes changes nothing for the parser *)
+Theorem keys_full : forall d, parse_doc (retype_keys d) = parse_doc d.
 Proof.
-  intros d H. unfold parse_doc, retype_keys. rewrite filter_flat_map. rewrite flat_map_concat_map, map_map, <- flat_map_concat_map.
-  unfold all_str in H. rewrite forallb_forall in H.
-  apply flat_map_ext_in'. intros [p it] Hin. unfold parse_item. simpl.
-  rewrite filter_flat_map. rewrite flat_map_concat_map, map_map, <- flat_map_concat_map.
-  specialize (H _ Hin). simpl in H. rewrite forallb_forall in H.
-  apply flat_map_ext_in'. intros [m o] Hm. simpl. apply parse_op_retype. apply (H _ Hm).
+  intro d. unfold parse_doc, retype_keys. rewrite flat_map_concat_map, map_map, <- flat_map_concat_map.
+  apply flat_map_ext_in'. intros [p it] _. unfold parse_item. simpl.
+  rewrite flat_map_concat_map, map_map, <- flat_map_concat_map.
+  apply flat_map_ext_in'. intros [m o] _. unfold parse_op. simpl.
+  destruct (is_method m); [|reflexivity]. f_equal. f_equal.
+  unfold codes_of. rewrite map_map. apply map_ext. apply key_str_retype.
 Qed.
+
+(* the redundant conjunct of [retype_key] holds on the whole status-code domain and beyond: 0..999 *)
+Fixpoint upto (n : nat) : list N := match n with O => [] | S m => upto m ++ [N.of_nat m] end.
+Lemma dec_roundtrip_0_999 :
+  forallb (fun n => is_canonical_dec (dec n) && str_eqb (dec (dec_value (dec n) 0)) (dec n) && (dec_value (dec n) 0 =? n)) (upto 1000) = true.
+Proof. vm_compute. reflexivity. Qed.
 
 Definition s_200 : str := [50;48;48].
 Definition s_get : str := [103;101;116].
@@ -73,17 +41,12 @@ Definition s_a : str := [47;97].
 Definition s_op : str := [111;112].
 Definition doc_F07b : doc :=
   [(s_a, [(s_get, {| o_id := s_op; o_tags := []; o_sig := []; o_resps := [KStr s_200] |})])].
-Lemma refuted_F07b :
-  all_str doc_F07b = true /\ guard_F07b doc_F07b = false /\
-  length (parse_doc doc_F07b) = 1%nat /\ parse_doc (retype_keys doc_F07b) = [] /\
-  parse_doc (retype_keys doc_F07b) <> parse_doc doc_F07b.
-Proof. repeat split; try (vm_compute; reflexivity). vm_compute. discriminate. Qed.
-
-Definition s_default : str := [100;101;102;97;117;108;116].
-Definition doc_stable : doc :=
-  [(s_a, [(s_get, {| o_id := s_op; o_tags := []; o_sig := []; o_resps := [KStr s_default] |})])].
-Lemma guard_F07b_nonvacuous : guard_F07b doc_stable = true /\ length (parse_doc doc_stable) = 1%nat.
-Proof. split; vm_compute; reflexivity. Qed.
+(* regression for the fixed F07b: the 200 key really becomes an int, and the operation is still parsed, with code "200" *)
+Lemma regression_F07b :
+  all_str doc_F07b = true /\ all_str (retype_keys doc_F07b) = false /\
+  map p_codes (parse_doc (retype_keys doc_F07b)) = [[s_200]] /\
+  parse_doc (retype_keys doc_F07b) = parse_doc doc_F07b.
+Proof. repeat split; vm_compute; reflexivity. Qed.
 
 (* ================================================================================================
    (2) grouping *)
